@@ -1,7 +1,5 @@
 (* C10 - reserved feature bits are refused; enabled ones work (leaf functions). *)
 From PS Require Import Base MiscDefs SpecDefs MiscProofs ApiDefs SpecApi ApiLemmas RefineProofs ApiTheorems.
-From PS Require Import CTieBase CTieFeat.
-From PS.Gen Require CFuns.
 From PS.Gen Require Import Consts Langs.
 Local Open Scope N_scope.
 
